@@ -27,7 +27,7 @@ def BOUNDS(tier):
 
 
 def REQUIRED_COVER(tier):
-    return {'argforms', 'accept', 'reject:duplicate', 'reject:weight', 'reject:exact-two-thirds', 'reject:empty-set', 'reject:invalid', 'reject:foreign', 'n:3', 'parsed-descriptors', 'two-calls', 'reused-descriptors', 'block:shardchain'}
+    return {'argforms', 'accept', 'reject:duplicate', 'reject:weight', 'reject:exact-two-thirds', 'reject:empty-set', 'reject:invalid', 'reject:foreign', 'n:3', 'parsed-descriptors', 'two-calls', 'reused-descriptors', 'block:shardchain', 'adnl-named'}
 
 
 MAGIC = bytes.fromhex('706e0bc5')
@@ -218,6 +218,67 @@ def shard_n(rec, n, part, parts):
     rec.sample({'weights': [1, 1, 1][:n], 'signatures': [['valid', 0], ['valid', 0], ['valid', 0]], 'expect': 'reject (one validator counted three times)'})
 
 
+def case_adnl(rec, weights, seq, form):
+    """sixth session (wave 9): validator_addr#73 descriptors carry an ADNL address next to the key.  A signature entry is matched to a validator
+    by the hash of its PUBLIC KEY only: an entry that names a member's ADNL address (with that member's genuine signature) names no signer.
+    form: how node_id_short is given (hex text / bytes)."""
+    from pytoniq_core.proof.check_proof import check_block_signatures
+    from pytoniq_core.tlb.config import ValidatorDescr
+    from pytoniq_core.tl.block import BlockIdExt
+    from pytoniq_core.boc import Builder
+    w = world(rec.seed)
+    n = len(weights)
+    rec.case('adnl-named')
+    args = {'weights': list(weights), 'seq': [list(x) for x in seq], 'form': form}
+    adnl = [filler(rec.seed, f'c12-adnl-{i}', 32) for i in range(n)]
+    nodes = []
+    for i in range(n):
+        b = Builder().store_uint(0x73, 8).store_uint(0x8e81278a, 32).store_bytes(w.pubs[i]).store_uint(weights[i], 64).store_bytes(adnl[i])
+        nodes.append(ValidatorDescr.deserialize(b.end_cell().begin_parse()))
+    rh, fh = w.blocks[0]
+    bid = BlockIdExt(-1, -(1 << 63), 100, rh, fh)
+    entries, signers, named_adnl = [], [], False
+    for kind, i in seq:
+        if kind == 'valid':
+            e = dict(w.entry(('valid', i), n, 0)[0])
+        else:
+            e = {'node_id_short': adnl[i].hex(), 'signature': w.sig[(i, 0)]}
+            named_adnl = True
+        if form == 'bytes':
+            e['node_id_short'] = bytes.fromhex(e['node_id_short'])
+        entries.append(e)
+        signers.append(i)
+    total = sum(weights)
+    want = (not named_adnl) and len(set(signers)) == len(signers) and 3 * sum(weights[i] for i in signers) > 2 * total
+    rec.trans()
+    try:
+        check_block_signatures(nodes, entries, bid)
+        got = True
+    except Exception:
+        got = False
+    rec.trace()
+    rec.state(('adnl', tuple(weights), tuple(seq), form))
+    rec.nontriv(('adnl', tuple(weights), tuple(seq), form))
+    rec.covered('adnl-named')
+    if got != want and not (form == 'bytes' and not named_adnl):
+        rec.violation('adnl-named:' + ('accepted' if got else 'rejected'), f'validator_addr descriptors, weights {list(weights)}, entries {seq} (adnl = the entry names the member\'s ADNL '
+                      f'address, node_id_short given as {form}): {"accepted" if got else "rejected"}, must be {"accepted" if want else "rejected"}', 'case_adnl', args)
+        rec.outcome('ADNL')
+    else:
+        rec.outcome('adnl-ok')
+
+
+def shard_adnl(rec):
+    for n in (1, 2, 3):
+        syms = [(k, i) for i in range(n) for k in ('valid', 'adnl')]
+        for wv in ([(1,) * n, (2,) * n] + ([(2, 2, 1), (1, 1, 4)] if n == 3 else []) + ([(3, 1)] if n == 2 else [])):
+            for L in (1, 2, 3):
+                for seq in itertools.product(syms, repeat=L):
+                    for form in ('hex', 'bytes'):
+                        case_adnl(rec, wv, seq, form)
+    rec.sample({'adnl_named': [['valid', 0], ['adnl', 0]], 'weights': [2, 2, 1], 'expect': 'reject'})
+
+
 def case_two_calls(rec, a, b):
     """check_block_signatures is a function of its arguments: two calls in a row with DIFFERENT validator sets (arbitrary
     subsets of three keys, not prefixes) - a signer known from the first call is unknown in the second unless it is a member
@@ -336,6 +397,7 @@ def shards(tier, seed):
     for p in range(4):
         out.append({'fn': 'shard_two_calls', 'args': {'part': p, 'parts': 4}})
     out.append({'fn': 'shard_reused', 'args': {}})
+    out.append({'fn': 'shard_adnl', 'args': {}})
     if tier == 'thorough':
         for p in range(48):
             out.append({'fn': 'shard_n', 'args': {'n': 4, 'part': p, 'parts': 48}, 'prio': 3})
